@@ -290,6 +290,14 @@ done:
 static ares_status_t config_search(ares_sysconfig_t *sysconfig, const char *str,
                                    size_t max_domains)
 {
+  /* A value that holds nothing but separators names no domain.  That is a
+   * malformed line to be ignored, not an out of memory condition (which is
+   * what a NULL result from ares_strsplit() would be taken for below, and
+   * which makes the caller throw away the whole configuration). */
+  if (str[strspn(str, ", ")] == 0) {
+    return ARES_SUCCESS;
+  }
+
   if (sysconfig->domains && sysconfig->ndomains > 0) {
     /* if we already have some domains present, free them first */
     ares_strsplit_free(sysconfig->domains, sysconfig->ndomains);
